@@ -82,6 +82,42 @@ func c16Check(orig *[256]int, total, present, scale int) (msg string, slow bool)
 			k++
 		}
 	}
+	// Second call pattern, as the Huffman encoder's length limiter makes it: the present symbols are renumbered
+	// 0..present-1 and the two slices are cut to that length (freqs[:present], alphabet[:present]).
+	{
+		var f2, a2 [256]int
+		k := 0
+		for i := 0; i < 256; i++ {
+			if orig[i] > 0 {
+				f2[k] = orig[i]
+				k++
+			}
+		}
+		var n2 int
+		var err2 error
+		if e := guard(func() error {
+			n2, err2 = entropy.NormalizeFrequencies(f2[:present], a2[:present], total, scale)
+			return nil
+		}); e != nil {
+			return "compact call (slices cut to the alphabet size, as the Huffman encoder calls it): " + e.Error(), false
+		}
+		if err2 != nil {
+			return "compact call: error returned: " + err2.Error(), false
+		}
+		if n2 != present {
+			return fmt.Sprintf("compact call: returned alphabet size %d, %d symbols present", n2, present), false
+		}
+		sum2 := 0
+		for i := 0; i < present; i++ {
+			sum2 += f2[i]
+			if f2[i] <= 0 || f2[i] > scale || a2[i] != i {
+				return fmt.Sprintf("compact call: entry %d scaled to %d with alphabet[%d]=%d", i, f2[i], i, a2[i]), false
+			}
+		}
+		if sum2 != scale {
+			return fmt.Sprintf("compact call: table sums to %d, scale is %d (present=%d total=%d)", sum2, scale, present, total), false
+		}
+	}
 	// label: did the call leave the fast path? (recomputed independently)
 	sumScaled, mx := 0, 0
 	for i := 0; i < 256; i++ {
